@@ -371,8 +371,9 @@ fault of any kind, no fuel exhaustion — and its final state carries the verdic
 of every group of `Spec.attempt`.
 
 Full statement aimed at (`compile_correct`, NOT proved): the same for every tree `syntax.Parse` can produce, i.e.
-`InFrag 8` extended by balancing groups, both directions.  Proved: the tiers 1–7 below (general loops, `UpdateBumpalong`,
-backreferences, conditionals, lookbehind and RightToLeft included; not yet: right-to-left single-character loops). -/
+`InFrag 8` extended by balancing groups, both directions.  Proved: the tiers 1–8 below (general loops, `UpdateBumpalong`,
+backreferences, conditionals, lookbehind and RightToLeft included), i.e. every node type the specification has a
+pattern for, in both directions. -/
 section compiler
 open RegexVerif.Compile RegexVerif.Writer RegexVerif.Generated.Opcodes
 
@@ -572,6 +573,36 @@ theorem compile_correct_T4d (ti : TreeInfo) (t : GoNode) (TPx : TP) (env : VM.En
       (∀ fuel, n ≤ fuel → (VM.run (emit ti t) env fuel s0).1 = .done s) ∧ Agrees ti se pat i s :=
   compile_correct_upto 7 (by decide) ti t TPx env se pat i hfrag hwf hpat hrel hi (by omega) (fun _ => hlen) (fun _ => henv)
 
+/-- **`compile_correct_T4e`** — tier 8 = tier 7 + the single-character loops with the Rtl bit (`Onerep…Setrep`,
+    `Oneloop…Setloopatomic`, their `|Back` cases: `forwardchars` = the text position, `forwardcharnext` reads the rune
+    before it, `bump` = −1).  The specification side is obtained from the left-to-right description of a character
+    loop through the mirror theorem of C15 (`Lemmas/SpecMirror.lean`).  With this every node type the specification has a
+    pattern for is covered in both directions. -/
+theorem compile_correct_T4e (ti : TreeInfo) (t : GoNode) (TPx : TP) (env : VM.Env) (se : Spec.Env) (pat : Pat) (i : Nat)
+    (hfrag : InFrag 8 TPx ti t = true) (hwf : treeWf ti t = true) (hpat : toPatRoot TPx ti.rtl t = some pat)
+    (hrel : EnvRel TPx (codeFromTree (mainCfg ti) t).2.sets env se) (hi : i ≤ se.n) (hlen : se.n < 2147483647)
+    (henv : env.ecma = false) :
+    ∃ s0 s n, VM.init (emit ti t) (i : Int) = .ok s0 ∧
+      (∀ fuel, n ≤ fuel → (VM.run (emit ti t) env fuel s0).1 = .done s) ∧ Agrees ti se pat i s :=
+  compile_correct_upto 8 (by decide) ti t TPx env se pat i hfrag hwf hpat hrel hi (by omega) (fun _ => hlen) (fun _ => henv)
+
+/-- **the scan on the whole proved fragment** (tier 8, either direction): `Spec.find` in the direction of the tree is
+    the first attempt of the compiled program in scan order that ends matched -/
+theorem compile_correct_find_T4e (ti : TreeInfo) (t : GoNode) (TPx : TP) (env : VM.Env) (se : Spec.Env) (pat : Pat)
+    (start : Nat) (hstart : start ≤ se.n) (hfrag : InFrag 8 TPx ti t = true) (hwf : treeWf ti t = true)
+    (hpat : toPatRoot TPx ti.rtl t = some pat) (hrel : EnvRel TPx (codeFromTree (mainCfg ti) t).2.sets env se)
+    (hlen : se.n < 2147483647) (henv : env.ecma = false) (st : St) :
+    Spec.find se pat ti.rtl start = some st ↔
+      ∃ (before : List Nat) (i : Nat) (after : List Nat), scanOrder ti.rtl start se.n = before ++ i :: after ∧
+        (∃ s0 s n, VM.init (emit ti t) (i : Int) = .ok s0 ∧
+          (∀ fuel, n ≤ fuel → (VM.run (emit ti t) env fuel s0).1 = .done s) ∧ VM.matched s = true ∧
+          s.textpos = (st.pos : Int) ∧ CapRep (slotOf ti) (capsize ti) s.cap st.caps ∧
+          Spec.attempt se pat ti.rtl i = some st) ∧
+        ∀ j ∈ before, ∃ s0 s n, VM.init (emit ti t) (j : Int) = .ok s0 ∧
+          (∀ fuel, n ≤ fuel → (VM.run (emit ti t) env fuel s0).1 = .done s) ∧ VM.matched s = false :=
+  compile_correct_find_upto 8 (by decide) ti t TPx env se pat start hstart hfrag hwf hpat hrel (by omega) (fun _ => hlen)
+    (fun _ => henv) st
+
 /-! ### non-vacuity (compiler correctness): four concrete trees inside the fragments, the hypotheses of the theorems
 met, and both sides of the conclusion evaluated -/
 
@@ -735,10 +766,39 @@ example : ∃ s0 s n, VM.init (emit (ccInfoR 1) ccT13) (4 : Nat) = .ok s0 ∧
       simpa [ccInfoR] using this⟩
   | none => absurd h (by decide)
 
-/-- trees outside the proved tiers: a right-to-left single-character loop is tier 8; a case-insensitive backreference
-    is in no tier -/
-example : InFrag 7 ccTP (ccInfo 1) (.capture 0 (-1) (.concat [.poslook (.charloop opOneloop true false 97 1 maxInt32), .char opOne false false 98])) = false ∧
-    InFrag 9 ccTP (ccInfo 2) (.capture 0 (-1) (.concat [.capture 1 (-1) (.char opOne false false 97), .ref false true 1])) = false := by
+/-- `a+b` compiled with the option RightToLeft (stored `b`, then `Oneloop(a)` with the Rtl bit; tier 8, not tier 7) on
+    "caab", attempt at 4: `b`, then the `a`s leftwards; the match is [1, 4) -/
+example : InFrag 7 ccTP (ccInfoR 1) ccT14 = false ∧ InFrag 8 ccTP (ccInfoR 1) ccT14 = true ∧ treeWf (ccInfoR 1) ccT14 = true := by
+  decide
+example : ccRun (ccInfoR 1) ccT14 (ccEnv [] (ccSe [99, 97, 97, 98])) 4 200 = some (true, 1, [[1, 3]]) := by decide
+example : (toPatRoot ccTP true ccT14).map (fun p => Spec.attempt (ccSe [99, 97, 97, 98]) p true 4) =
+    some (some { pos := 1, caps := [(0, 1, 3)] }) := by decide
+/-- `(?<=a{2,}?)b`-like lookbehind with a lazy right-to-left loop: `(?<=ca*?)b` on "caab" at 3 -/
+example : InFrag 8 ccTP (ccInfo 1) ccT15 = true ∧ treeWf (ccInfo 1) ccT15 = true := by decide
+example : ccRun (ccInfo 1) ccT15 (ccEnv [] (ccSe [99, 97, 97, 98])) 3 300 = some (true, 4, [[3, 1]]) := by decide
+example : (toPatRoot ccTP false ccT15).map (fun p => Spec.attempt (ccSe [99, 97, 97, 98]) p false 3) =
+    some (some { pos := 4, caps := [(0, 3, 1)] }) := by decide
+/-- the hypotheses of `compile_correct_T4e` hold for the RightToLeft `a+b`, so its conclusion does -/
+example : ∃ s0 s n, VM.init (emit (ccInfoR 1) ccT14) (4 : Nat) = .ok s0 ∧
+    (∀ fuel, n ≤ fuel → (VM.run (emit (ccInfoR 1) ccT14) (ccEnv [] (ccSe [99, 97, 97, 98])) fuel s0).1 = .done s) ∧
+    VM.matched s = true :=
+  match h : toPatRoot ccTP true ccT14 with
+  | some pat =>
+    let ⟨s0, s, n, h1, h2, hag⟩ := compile_correct_T4e (ccInfoR 1) ccT14 ccTP _ (ccSe [99, 97, 97, 98]) pat 4 (by decide) (by decide) h
+      (ccRel _ _) (by decide) (by decide) rfl
+    ⟨s0, s, n, h1, h2, by
+      rw [hag.verdict]
+      have : (toPatRoot ccTP true ccT14).map (fun p => (Spec.attempt (ccSe [99, 97, 97, 98]) p true 4).isSome) = some true := by
+        decide
+      rw [h] at this
+      simpa [ccInfoR] using this⟩
+  | none => absurd h (by decide)
+
+/-- trees outside the proved tiers: an ECMAScript boundary is tier 9 (and has no pattern in the specification); a
+    case-insensitive backreference and a balancing group are in no tier -/
+example : InFrag 8 ccTP (ccInfo 1) (.capture 0 (-1) (.concat [.bare opECMABoundary, .char opOne false false 98])) = false ∧
+    InFrag 9 ccTP (ccInfo 2) (.capture 0 (-1) (.concat [.capture 1 (-1) (.char opOne false false 97), .ref false true 1])) = false ∧
+    InFrag 9 ccTP (ccInfo 2) (.capture 0 (-1) (.capture 1 1 (.char opOne false false 97))) = false := by
   decide
 
 end compiler
